@@ -44,7 +44,8 @@ func extractKeysWeightsAggregateWithScores(cmd []string) ([]string, []int, strin
 		return strings.EqualFold(s, "aggregate")
 	})
 	if aggregateIndex != -1 {
-		if !slices.Contains([]string{"sum", "min", "max"}, strings.ToLower(cmd[aggregateIndex+1])) {
+		if aggregateIndex == len(cmd)-1 ||
+			!slices.Contains([]string{"sum", "min", "max"}, strings.ToLower(cmd[aggregateIndex+1])) {
 			return []string{}, []int{}, "", false, errors.New("aggregate must be SUM, MIN, or MAX")
 		}
 		aggregate = strings.ToLower(cmd[aggregateIndex+1])
